@@ -82,9 +82,26 @@ def sentences(seed, n, max_tokens, scratch=None, cover=0, stats=None):
     picked so that every production some derivation applied is applied by a returned one (greedy cover first,
     then generation order) - a choice among TLC's sentences, not a verdict."""
     want = int(n * max(1, cover) * 1.3) + 4
-    cases = [c for c in generate(seed, want, max_tokens, scratch=scratch, mutants=0, procs=8 if cover > 1 else 4) if c["kind"] == "sentence"]
     if cover <= 1:
+        cases = [c for c in generate(seed, want, max_tokens, scratch=scratch, mutants=0, procs=4) if c["kind"] == "sentence"]
         return [c["w"] for c in cases][:n]
+    # Derivations from the module start symbol spend most of their token budget on the leading comment / import /
+    # attribute lists; to reach every construct, TLC also derives from inner nonterminals and the result is wrapped
+    # into a module (a type definition is a module by itself; a field block gets a `struct Xx:` / `bits Xx:` header).
+    NL = '"\\n"'
+    starts = [("module", [], [], 3), ("struct", [], [], 2), ("bits", [], [], 2), ("enum", [], [], 1), ("external", [], [], 1),
+              ("struct-field-block", ['"struct"', "CamelWord", '":"', NL, "Indent"], ["Dedent"], 4),
+              ("bits-field-block", ['"bits"', "CamelWord", '":"', NL, "Indent"], ["Dedent"], 2)]
+    tot = sum(w for *_x, w in starts)
+    cases = []
+    for k, (st, pre, suf, wgt) in enumerate(starts):
+        sub = generate(seed * 17 + k, max(8, want * wgt // tot), max(8, max_tokens - len(pre) - len(suf)), scratch=scratch, mutants=0,
+                       procs=8, grammar=emboss_grammar(start=st))
+        for c in sub:
+            if c["kind"] == "sentence":
+                c["w"] = pre + c["w"] + suf
+                c["start"] = st
+                cases.append(c)
     # coverage items: productions and (parent production, child production) pairs, i.e. which alternative of a
     # nonterminal was taken in which right-hand side
     items = [set(("p", p) for p in c["ps"]) | set(("pp",) + tuple(x) for x in c["pp"]) for c in cases]
